@@ -24,7 +24,7 @@ RULE = (
     "pair; distinct = (operation, parameters, input hash, seed); non-trivial = the operation returned in both runs"
 )
 ASSUMPTIONS = ["thorough tier repeats the CLI steps as real subprocesses under two PYTHONHASHSEED values", "line-granular injection uses sys.monitoring LINE events on code objects whose file lies under the tree under test"]
-REQUIRED = {"pairs_compared": {"quick": 400, "thorough": 8000}, "global_state_checks": {"quick": 400, "thorough": 8000}, "injected_global_draws": {"quick": 2000, "thorough": 50000}, "training_pairs": {"quick": 16, "thorough": 300}, "training_pairs_same_model": {"quick": 16, "thorough": 300}, "training_with_non_default_switches": {"quick": 6, "thorough": 100}, "vi_training_pairs": {"quick": 40, "thorough": 600}, "reused_scorer_pairs": {"quick": 30, "thorough": 600}, "second_runs_on_an_object_with_a_past": {"quick": 60, "thorough": 1200}, "grid_model_training_pairs": {"quick": 2, "thorough": 16}, "cli_pairs": {"quick": 24, "thorough": 400}, "cli_subprocess_pairs": {"quick": 2, "thorough": 16}}
+REQUIRED = {"pairs_compared": {"quick": 400, "thorough": 8000}, "global_state_checks": {"quick": 400, "thorough": 8000}, "injected_global_draws": {"quick": 2000, "thorough": 50000}, "training_pairs": {"quick": 16, "thorough": 300}, "training_pairs_same_model": {"quick": 16, "thorough": 300}, "training_with_non_default_switches": {"quick": 6, "thorough": 100}, "vi_training_pairs": {"quick": 40, "thorough": 600}, "reused_scorer_pairs": {"quick": 30, "thorough": 600}, "dbal_pairs_many_samples": {"quick": 12, "thorough": 48}, "second_runs_on_an_object_with_a_past": {"quick": 60, "thorough": 1200}, "grid_model_training_pairs": {"quick": 2, "thorough": 16}, "cli_pairs": {"quick": 24, "thorough": 400}, "cli_subprocess_pairs": {"quick": 2, "thorough": 16}}
 N_OPS = {"quick": 640, "thorough": 12800}
 TOOL = 4
 
@@ -261,6 +261,19 @@ def run_shard(rec, tier, seed, shard, nshards):
             allh.add_score(pid, float(rng.integers(0, 3)))
         k = int(rng.integers(1, 3))
         pair(rec, "select_next_plate", "KPerSamplePlatePolicy(k=%d)" % k, lambda: select_next_plate(allh, screen, KPerSamplePlatePolicy(k), batch_plate_ids=[], rng=np.random.default_rng(s0)), lambda r: None if r is None else int(r.plate_id), w, case_key=("select", s0, k, kit.array_hash(allh.scores)))
+
+    # ------------------------------------------------ DBAL triple sub-sampling in the production regime: thousands of
+    #                                                  posterior samples, C(n,3) beyond 2**31 and 2**32
+    for n_big in ((2400, 3000) if tier == "quick" else (2400, 2600, 3000, 4000)):
+        E_ = int(rng.integers(1, 4))
+        preds = rng.normal(size=(2, n_big, E_))
+        var = np.exp(rng.normal(size=(2, n_big, E_)))
+        dd = np.abs(rng.normal(size=(n_big, n_big)))
+        dd = dd + dd.T
+        np.fill_diagonal(dd, 0.0)
+        s0 = int(rng.integers(0, 2**31))
+        bud = int(rng.choice([50, 300, 1000]))
+        pair(rec, "DBAL-subsampling-many-samples", "n_thetas=%d budget=%d" % (n_big, bud), lambda: G.dbal_fast_gauss_scoring_vectorized(preds, var, dd, np.random.default_rng(s0), max_combos=bud), lambda r: [float(x).hex() for x in np.asarray(r).ravel()], {"n_thetas": n_big, "budget": bud, "seed": s0}, inj_every=3, case_key=("dbal-big", n_big, bud, s0), count_as="dbal_pairs_many_samples")
 
     # ------------------------------------------------ model training through sampling.sample
     n_tr = {"quick": 2, "thorough": 20}[tier]
